@@ -18,8 +18,8 @@ Notation wfe := (wfe true ctor_ok).
 Notation wfb := (wfb true ctor_ok).
 Notation vrel := (vrel ctor_ok gfuncs).
 Notation erel := (erel ctor_ok gfuncs).
-Notation peval := (peval gfuncs).
-Notation pevals := (pevals gfuncs).
+Notation peval := (peval ctor_ok gfuncs).
+Notation pevals := (pevals ctor_ok gfuncs).
 Notation Geval := (Geval gfuncs gvars).
 Notation Gevals := (Gevals gfuncs gvars).
 Notation Gexec := (Gexec gfuncs gvars).
@@ -41,6 +41,13 @@ Lemma var_sim' senv genv x v :
   erel senv genv -> reserved x = false -> lookup_var sfuns x senv = Some v ->
   exists gv, glookup x genv = Some gv /\ vrel v gv.
 Proof. exact (var_sim ctor_ok sfuns gfuncs Hfuns senv genv x v). Qed.
+
+Lemma peval_Geval' env k a gv t : peval env k a gv -> Geval env (compile k a) t gv t.
+Proof. apply (peval_Geval ctor_ok gfuncs gvars Hctor1 Hctor0). Qed.
+Lemma pevals_Gevals' env args k gws rest t rvs t' :
+  pevals env k args gws -> Gevals env rest t rvs t' ->
+  Gevals env (compile_list k args ++ rest) t (gws ++ rvs) t'.
+Proof. apply (pevals_Gevals ctor_ok gfuncs gvars Hctor1 Hctor0). Qed.
 
 Lemma Gs_close genv (ces:list gexpr) t (gs:list gval) t' :
   (forall rest rvs t2, Gevals genv rest t' rvs t2 -> Gevals genv (ces ++ rest) t (gs ++ rvs) t2) ->
@@ -110,23 +117,69 @@ Ltac useB IB E k o G V :=
       end
   end.
 
-(** *** pure arguments *)
-Lemma step_P n : SimPs n -> SimP (S n).
+(** *** helpers *)
+Lemma tuple_pure (gvs:list gval) n :
+  n = List.length gvs -> two_or_three n ->
+  lib_pure gops (tuple_fn n) gvs = Some (GVStruct (tuple_struct (List.length gvs)) (combine tuple_fields gvs)).
 Proof.
-  intros IPs. red; intros senv genv a t v t' W P E H. inversion P; subst; sstep H.
-  - inversion H; subst; split; [reflexivity|]. intros; eexists; split; constructor.
-  - inversion H; subst; split; [reflexivity|]. intros; eexists; split; constructor.
-  - inversion H; subst; split; [reflexivity|]. intros; eexists; split; constructor.
-  - inversion W; subst.
+  intros -> T.
+  destruct gvs as [|a [|b [|c [|d gvs]]]]; cbn [List.length] in *; destruct T as [T|T]; try discriminate T;
+    reflexivity.
+Qed.
+
+Lemma combine_fst {A B} : forall (l1:list A) (l2:list B), List.length l1 = List.length l2 -> map fst (combine l1 l2) = l1.
+Proof. induction l1; intros [|b l2] L; cbn in *; try discriminate; auto. f_equal; auto. Qed.
+Lemma combine_snd {A B} : forall (l1:list A) (l2:list B), List.length l1 = List.length l2 -> map snd (combine l1 l2) = l2.
+Proof. induction l1; intros [|b l2] L; cbn in *; try discriminate; auto. f_equal; auto. Qed.
+Lemma compile_list_length : forall es k, List.length (compile_list k es) = List.length es.
+Proof. induction es; intros; cbn; auto. Qed.
+
+Lemma evals_length n : forall senv es t vs t', evals sfuns n senv es t = Done vs t' -> List.length vs = List.length es.
+Proof.
+  induction n as [|n IH]; intros senv es t vs t' H; [discriminate|]. sstep H.
+  destruct es as [|e es]; [inversion H; reflexivity|].
+  rb H E1. rb H E2. inversion H; subst. cbn. f_equal. eapply IH; eauto.
+Qed.
+
+Lemma fields_rel : forall (fields:list string) vs gvs,
+  Forall2 vrel vs gvs ->
+  Forall2 (fun a b => fst a = fst b /\ vrel (snd a) (snd b)) (combine fields vs) (combine fields gvs).
+Proof.
+  induction fields as [|f fields IH]; intros vs gvs V; cbn; [constructor|].
+  inversion V; subst; [constructor|]. constructor; [cbn; auto|apply IH; assumption].
+Qed.
+
+Lemma field_lookup f : forall fs gfs v,
+  Forall2 (fun a b => fst a = fst b /\ vrel (snd a) (snd b)) fs gfs ->
+  lookup f fs = Some v -> exists gv, lookup f gfs = Some gv /\ vrel v gv.
+Proof.
+  induction fs as [|[g w] fs IH]; intros gfs v F L; cbn in L; [discriminate|].
+  inversion F as [|? [g' gw] ? ? [Eq Vw] F']; subst. cbn in Eq, Vw; subst g'. cbn.
+  destruct (String.eqb f g); [inversion L; subst; eauto|eauto].
+Qed.
+
+
+Lemma veq_sim' va vb ga gb r :
+  vrel va ga -> vrel vb gb -> val_eq va vb = Some r -> gval_eq ga gb = Some r.
+Proof. apply (veq_sim ctor_ok gfuncs va). Qed.
+
+(** *** pure arguments *)
+Lemma step_P n : SimP n -> SimPs n -> SimP (S n).
+Proof.
+  intros IP IPs. red; intros senv genv a t v t' W P E H. inversion P; subst.
+  - sstep H. inversion H; subst; split; [reflexivity|]. intros; eexists; split; constructor.
+  - sstep H. inversion H; subst; split; [reflexivity|]. intros; eexists; split; constructor.
+  - sstep H. inversion H; subst; split; [reflexivity|]. intros; eexists; split; constructor.
+  - sstep H. inversion W; subst.
     destruct (lookup_var sfuns x senv) as [v0|] eqn:L; cbn in H; inversion H; subst.
     split; [reflexivity|]. intros env' k Q.
     destruct (var_sim' _ _ _ _ E H1 L) as (gv & L' & V).
     exists gv; split; [|exact V]. constructor.
     rewrite (glookup_equiv _ _ _ _ Q) by (apply reserved_false; assumption). exact L'.
-  - inversion W; subst. inversion H; subst. split; [reflexivity|]. intros env' k Q.
+  - sstep H. inversion W; subst. inversion H; subst. split; [reflexivity|]. intros env' k Q.
     eexists; split; [constructor|].
     destruct (erel_equiv _ _ _ _ _ E Q) as (E1 & E2 & E3). constructor; auto.
-  - inversion W; subst.
+  - sstep H. inversion W; subst.
     destruct (lookup_var sfuns f senv) as [fv|] eqn:L; try discriminate.
     rb H Es. inversion H; subst.
     match goal with Hp : true = true -> Forall pure args |- _ => specialize (Hp eq_refl) end.
@@ -140,6 +193,93 @@ Proof.
         exists gf; split; [|exact V];
         rewrite (glookup_equiv _ _ _ _ Q2) by (apply reserved_false; assumption); exact L' end.
     + apply K; exact Q2.
+  - (* operators *)
+    inversion W; subst.
+    match goal with Wa : wfe a0, Wb : wfe b, Pa : pure a0, Pb : pure b |- _ =>
+      pose proof (fun t v t' => IP senv genv a0 t v t' Wa Pa E) as IPa;
+      pose proof (fun t v t' => IP senv genv b t v t' Wb Pb E) as IPb end.
+    destruct op; sstep H; rb H E1; destruct (IPa _ _ _ E1) as (-> & K1);
+      try (rb H E2; destruct (IPb _ _ _ E2) as (-> & K2);
+           destruct (arith sops _ v0 v1) as [r|] eqn:A; cbn in H; inversion H; subst;
+           split; [reflexivity|]; intros env' k Q;
+           destruct (K1 env' k Q) as (ga & Pga & Va); destruct (K2 env' (k + nv a0) Q) as (gb & Pgb & Vb);
+           destruct (arith_sim _ _ _ _ _ _ _ _ Va Vb A) as (gv & A' & V);
+           exists gv; split; [eapply PE_arith; eauto; discriminate|exact V]).
+    + destruct v0 as [| |[|]| | | | | | |]; try discriminate.
+      * rb H E2. destruct (IPb _ _ _ E2) as (-> & K2). destruct v0; try discriminate. inversion H; subst.
+        split; [reflexivity|]. intros env' k Q.
+        destruct (K1 env' k Q) as (ga & Pga & Va). destruct (K2 env' (k + nv a0) Q) as (gb & Pgb & Vb).
+        apply vrel_bool_inv in Va. apply vrel_bool_inv in Vb. subst.
+        eexists; split; [eapply PE_and_true; eauto|constructor].
+      * inversion H; subst. split; [reflexivity|]. intros env' k Q.
+        destruct (K1 env' k Q) as (ga & Pga & Va). apply vrel_bool_inv in Va. subst.
+        eexists; split; [eapply PE_and_false; eauto|constructor].
+    + destruct v0 as [| |[|]| | | | | | |]; try discriminate.
+      * inversion H; subst. split; [reflexivity|]. intros env' k Q.
+        destruct (K1 env' k Q) as (ga & Pga & Va). apply vrel_bool_inv in Va. subst.
+        eexists; split; [eapply PE_or_true; eauto|constructor].
+      * rb H E2. destruct (IPb _ _ _ E2) as (-> & K2). destruct v0; try discriminate. inversion H; subst.
+        split; [reflexivity|]. intros env' k Q.
+        destruct (K1 env' k Q) as (ga & Pga & Va). destruct (K2 env' (k + nv a0) Q) as (gb & Pgb & Vb).
+        apply vrel_bool_inv in Va. apply vrel_bool_inv in Vb. subst.
+        eexists; split; [eapply PE_or_false; eauto|constructor].
+  - (* = <> *)
+    inversion W; subst. sstep H. rb H E1. rb H E2.
+    match goal with Wa : wfe a0, Wb : wfe b, Pa : pure a0, Pb : pure b |- _ =>
+      destruct (IP _ _ _ _ _ _ Wa Pa E E1) as (-> & K1); destruct (IP _ _ _ _ _ _ Wb Pb E E2) as (-> & K2) end.
+    destruct (val_eq v0 v1) as [r|] eqn:Q0; inversion H; subst.
+    split; [reflexivity|]. intros env' k Q.
+    destruct (K1 env' k Q) as (ga & Pga & Va). destruct (K2 env' (k + nv a0) Q) as (gb & Pgb & Vb).
+    eexists; split; [eapply PE_eq; eauto; eapply veq_sim'; eauto|destruct neg; constructor].
+  - (* not *)
+    inversion W; subst. sstep H. rb H E1.
+    match goal with Wa : wfe a0, Pa : pure a0 |- _ => destruct (IP _ _ _ _ _ _ Wa Pa E E1) as (-> & K1) end.
+    destruct v0; try discriminate. inversion H; subst.
+    split; [reflexivity|]. intros env' k Q.
+    destruct (K1 env' k Q) as (ga & Pga & Va). apply vrel_bool_inv in Va. subst.
+    eexists; split; [eapply PE_not; eauto|constructor].
+  - (* tuple *)
+    inversion W; subst. sstep H. rb H Es. inversion H; subst.
+    match goal with Wa : Forall wfe es, Hp : Forall pure es |- _ =>
+      destruct (IPs _ _ _ _ _ _ Wa Hp E Es) as (-> & K) end.
+    split; [reflexivity|]. intros env' k Q. destruct (K env' k Q) as (gvs & Ps & Vs).
+    eexists; split; [eapply PE_tuple; eauto|].
+    constructor; [exact Vs|]. rewrite (evals_length _ _ _ _ _ _ Es). assumption.
+  - (* record *)
+    inversion W; subst. sstep H. rb H Es.
+    destruct (Nat.eqb (List.length fs) (List.length v0)) eqn:Ln; inversion H; subst. apply Nat.eqb_eq in Ln.
+    match goal with Wa : Forall wfe es, Hp : Forall pure es |- _ =>
+      destruct (IPs _ _ _ _ _ _ Wa Hp E Es) as (-> & K) end.
+    split; [reflexivity|]. intros env' k Q. destruct (K env' k Q) as (gvs & Ps & Vs).
+    eexists; split; [eapply PE_record; eauto|].
+    + rewrite Ln. apply (evals_length _ _ _ _ _ _ Es).
+    + constructor. apply fields_rel; exact Vs.
+  - (* field *)
+    inversion W; subst. sstep H. rb H E1.
+    match goal with Wa : wfe e, Pa : pure e |- _ => destruct (IP _ _ _ _ _ _ Wa Pa E E1) as (-> & K1) end.
+    destruct v0 as [| | | | |rn fs| | | |]; try discriminate.
+    destruct (lookup f fs) as [fv|] eqn:L; cbn in H; inversion H; subst.
+    split; [reflexivity|]. intros env' k Q.
+    destruct (K1 env' k Q) as (ge & Pge & Ve). inversion Ve; subst.
+    match goal with F : Forall2 _ fs ?gfs |- _ => destruct (field_lookup _ _ _ _ F L) as (gv & Lg & V) end.
+    exists gv; split; [eapply PE_field; eauto|exact V].
+  - (* constructor without payload *)
+    inversion W; subst. sstep H. inversion H; subst. split; [reflexivity|]. intros env' k Q.
+    destruct (erel_equiv _ _ _ _ _ E Q) as (_ & _ & E3).
+    eexists; split; [eapply PE_ctor0; [eassumption|apply E3; apply ctor_name_like]|constructor].
+  - (* constructor with payload *)
+    inversion W; subst. sstep H. rb H E1. inversion H; subst.
+    match goal with Wa : wfe a0, Pa : pure a0 |- _ => destruct (IP _ _ _ _ _ _ Wa Pa E E1) as (-> & K1) end.
+    split; [reflexivity|]. intros env' k Q.
+    destruct (erel_equiv _ _ _ _ _ E Q) as (_ & _ & E3).
+    destruct (K1 env' k Q) as (ga & Pga & Va).
+    eexists; split; [eapply PE_ctor1; [eassumption|apply E3; apply ctor_name_like|exact Pga]|constructor; exact Va].
+  - (* slice literal *)
+    inversion W; subst. sstep H. rb H Es. inversion H; subst.
+    match goal with Wa : Forall wfe es, Hp : Forall pure es |- _ =>
+      destruct (IPs _ _ _ _ _ _ Wa Hp E Es) as (-> & K) end.
+    split; [reflexivity|]. intros env' k Q. destruct (K env' k Q) as (gvs & Ps & Vs).
+    eexists; split; [eapply PE_slice; eauto|constructor; exact Vs].
 Qed.
 
 Lemma step_Ps n : SimP n -> SimPs n -> SimPs (S n).
@@ -192,7 +332,7 @@ Proof.
     assert (Gc : Geval env' (GCall (GVar f) (compile_list k args ++ map GVar (rnames (S m) 0))) t gv t0).
     { eapply G_call; [apply G_var; exact Lf | | exact G].
       rewrite <- (app_nil_r (map GVar (rnames (S m) 0))), <- (app_nil_r gvs).
-      eapply pevals_Gevals; [exact Pw|]. eapply bind_rnames_vars; [exact B'|apply Gs_nil]. }
+      eapply pevals_Gevals'; [exact Pw|]. eapply bind_rnames_vars; [exact B'|apply Gs_nil]. }
     destruct u.
     + destruct Hu as (-> & ->). exists GVUnit; split; [|constructor].
       change GVUnit with (ret_val None). eapply Ga_clo; [exact B'|].
@@ -394,46 +534,6 @@ Proof.
 Qed.
 
 (** *** expressions *)
-Lemma tuple_pure (gvs:list gval) n :
-  n = List.length gvs -> two_or_three n ->
-  lib_pure gops (tuple_fn n) gvs = Some (GVStruct (tuple_struct (List.length gvs)) (combine tuple_fields gvs)).
-Proof.
-  intros -> T.
-  destruct gvs as [|a [|b [|c [|d gvs]]]]; cbn [List.length] in *; destruct T as [T|T]; try discriminate T;
-    reflexivity.
-Qed.
-
-Lemma combine_fst {A B} : forall (l1:list A) (l2:list B), List.length l1 = List.length l2 -> map fst (combine l1 l2) = l1.
-Proof. induction l1; intros [|b l2] L; cbn in *; try discriminate; auto. f_equal; auto. Qed.
-Lemma combine_snd {A B} : forall (l1:list A) (l2:list B), List.length l1 = List.length l2 -> map snd (combine l1 l2) = l2.
-Proof. induction l1; intros [|b l2] L; cbn in *; try discriminate; auto. f_equal; auto. Qed.
-Lemma compile_list_length : forall es k, List.length (compile_list k es) = List.length es.
-Proof. induction es; intros; cbn; auto. Qed.
-
-Lemma evals_length n : forall senv es t vs t', evals sfuns n senv es t = Done vs t' -> List.length vs = List.length es.
-Proof.
-  induction n as [|n IH]; intros senv es t vs t' H; [discriminate|]. sstep H.
-  destruct es as [|e es]; [inversion H; reflexivity|].
-  rb H E1. rb H E2. inversion H; subst. cbn. f_equal. eapply IH; eauto.
-Qed.
-
-Lemma fields_rel : forall (fields:list string) vs gvs,
-  Forall2 vrel vs gvs ->
-  Forall2 (fun a b => fst a = fst b /\ vrel (snd a) (snd b)) (combine fields vs) (combine fields gvs).
-Proof.
-  induction fields as [|f fields IH]; intros vs gvs V; cbn; [constructor|].
-  inversion V; subst; [constructor|]. constructor; [cbn; auto|apply IH; assumption].
-Qed.
-
-Lemma field_lookup f : forall fs gfs v,
-  Forall2 (fun a b => fst a = fst b /\ vrel (snd a) (snd b)) fs gfs ->
-  lookup f fs = Some v -> exists gv, lookup f gfs = Some gv /\ vrel v gv.
-Proof.
-  induction fs as [|[g w] fs IH]; intros gfs v F L; cbn in L; [discriminate|].
-  inversion F as [|? [g' gw] ? ? [Eq Vw] F']; subst. cbn in Eq, Vw; subst g'. cbn.
-  destruct (String.eqb f g); [inversion L; subst; eauto|eauto].
-Qed.
-
 (** string interpolation: frt.SInterP on the format built by ParseSInterP *)
 Lemma interp_sim senv genv : forall parts s,
   erel senv genv ->
@@ -466,9 +566,7 @@ Proof.
     + cbn. rewrite F. reflexivity.
 Qed.
 
-Lemma veq_sim' va vb ga gb r :
-  vrel va ga -> vrel vb gb -> val_eq va vb = Some r -> gval_eq ga gb = Some r.
-Proof. apply (veq_sim ctor_ok gfuncs va). Qed.
+
 
 Lemma step_E n : SimE n -> SimEs n -> SimB n -> SimA n -> SimP (S n) -> SimMU (S n) -> SimMS (S n) -> SimBE (S n) ->
   SimE (S n).
@@ -571,7 +669,7 @@ Proof.
       apply Gs_close; exact Gs.
     + destruct (HP senv genv (ECall f (S m) retunit args) t v t' W (P_pap _ _ _ _) E H) as (-> & K).
       destruct (K genv k (equiv_refl _)) as (gv & P & V). exists gv; split; [|exact V].
-      apply (peval_Geval _ _ _ _ _ _ _ P).
+      eapply peval_Geval'; eauto.
   - (* library call *)
     inversion W; subst. sstep H.
     match goal with Hs : src_fn fn = true |- _ => rewrite Hs in H end.
@@ -756,7 +854,7 @@ Proof.
   induction n as [|n (IE & IEs & IB & IA & IP & IPs & IMU & IMS & IBE)].
   { unfold Sims, SimE, SimEs, SimB, SimA, SimP, SimPs, SimMU, SimMS, SimBE.
     repeat (split; [intros; cbn in *; discriminate|]). intros; cbn in *; discriminate. }
-  pose proof (step_P n IPs) as HP.
+  pose proof (step_P n IP IPs) as HP.
   pose proof (step_Ps n IP IPs) as HPs.
   pose proof (step_Es n IE IEs) as HEs.
   pose proof (step_A n IB IA) as HA.
